@@ -14,7 +14,7 @@ EXPLANATION = (
     "SemiringLogProbability.negate raises InvalidValue outside the domain before computing; the in_domain predicates of both semirings are upper "
     "bounds at 1 (0 in log space); V4 BaseFormula.extract_weights routes every weight that is not a neutral/True/False marker through "
     "pos_value/neg_value, and the probability semirings inherit pos_value/neg_value that go through value(); V5 InvalidValue derives from "
-    "ProbLogError; V6 coverage of the sum check: some validator on the compile or grounding path must range over the complete head list of an "
+    "ProbLogError; V7 the operations on the value path of that check (plus, negate, ad_complement as resolved through the class hierarchy for the probability and log-probability semirings) do not clamp (max/min/abs/round...): a clamp maps an out-of-range sum back into the domain; V6 coverage of the sum check: some validator on the compile or grounding path must range over the complete head list of an "
     "annotated disjunction and be able to raise InvalidValue. Probabilities given as non-numeric terms and API-supplied float weights are not decided."
 )
 TECHNIQUE = "static analysis: CFG dominance of bounds tests (must-facts), routing/who-validates rules"
@@ -287,7 +287,35 @@ def rule_v6(repo, col):
                  construct="for n in self.nodes (only validator of AD sums)", function="ConstraintAD.update_weights")
 
 
+CLAMPS = ("max", "min", "abs", "round", "math.fabs", "math.floor", "math.ceil", "numpy.clip", "np.clip")
+
+
+def rule_v7(repo, col):
+    """no clamping on the value path of the annotated-disjunction sum check: plus -> negate / ad_complement -> in_domain"""
+    from ..index import ClassInfo
+
+    n = 0
+    for cname in ("SemiringProbability", "SemiringLogProbability"):
+        c = repo.cls(EV, cname)
+        for meth in ("plus", "negate", "ad_complement"):
+            f = None
+            for k in repo.mro(c):
+                if isinstance(k, ClassInfo) and meth in k.methods:
+                    f = k.methods[meth]
+                    break
+            if f is None:
+                raise AnalysisError("%s.%s not found in the class hierarchy" % (cname, meth))
+            n += 1
+            bad = [x for x in walk_no_nested(f.node) if isinstance(x, ast.Call) and dotted(x.func) in CLAMPS]
+            col.decide("V7", f.module, bad[0] if bad else f.node, not bad, "%s.%s (as used by %s) does not clamp its result" % (f.cls.name if f.cls else "?", meth, cname),
+                       "%s (used by %s on the path sum of the heads -> complement -> in_domain) clamps its result with %s: an annotated disjunction whose probabilities sum to more than 1 "
+                       "then yields a complement inside the domain and is accepted instead of raising InvalidValue" % (f.qualname, cname, norm(bad[0])[:60] if bad else ""),
+                       construct="%s.%s for %s: clamp" % (f.cls.name if f.cls else "?", meth, cname), function=f.qualname)
+    col.floor("V7.value_path_methods", n, 6)
+
+
 def run(repo, col):
+    col.rule("V7", "no clamping between the sum of the AD heads and the in_domain test")
     col.rule("V1", "value(): every return inside a [0,1] bounds test, else InvalidValue")
     col.rule("V2", "AD extra-node weight dominated by in_domain(complement)")
     col.rule("V3", "log negate checks the domain; in_domain is an upper bound at 1")
@@ -300,3 +328,4 @@ def run(repo, col):
     rule_v4(repo, col)
     rule_v5(repo, col)
     rule_v6(repo, col)
+    rule_v7(repo, col)
